@@ -200,10 +200,14 @@ def o64(ctx):
                 break
 
 
-def obligations():
+def _obligations():
     return [
         Obligation("O6.1", "euler_angles_to_normals returns the unit image of the z-axis per orientation", o61, floor=3),
         Obligation("O6.2", "angular_distance = rotation angle of R1^-1 R2, arccos argument clamped", o62, floor=3),
         Obligation("O6.3", "cone distance = angle between z-axes (clamped); in-plane distance in [0,180], 0 for equal; triple order", o63, floor=40),
         Obligation("O6.4", "normals_to_euler_angles: z-axis of the result is n/|n| for any normal incl. axis-aligned", o64, floor=6),
     ]
+
+
+def obligations():
+    return _obligations() + [effects_obligation("C06")]
